@@ -1,6 +1,7 @@
 package c31
 
 import (
+	"errors"
 	"fmt"
 	"strings"
 	"testing"
@@ -17,12 +18,21 @@ type closer interface{ Close() bool }
 
 // scenario: ops is a list of threads, each a list of "A" (accept) / "C" (close).
 func scenario(name string, threads [][]string, bound int, run *evid.Run) *vsync.Config {
+	return scenarioEx(name, threads, bound, run, false)
+}
+
+// scenarioEx: closeFails makes the underlying stream's Close report an error
+// (the stream is gone all the same: reset by the peer, failed final flush).
+func scenarioEx(name string, threads [][]string, bound int, run *evid.Run, closeFails bool) *vsync.Config {
 	return &vsync.Config{
 		Name:     name,
 		Bound:    bound,
 		Deadline: run.Deadline(),
 		Body: func() {
 			strm := &fakes.Stream{Name: "s"}
+			if closeFails {
+				strm.CloseErr = errors.New("stream reset by peer")
+			}
 			ms := &fakes.MountedStream{Strm: strm, Proto: "p"}
 			sms := link_solicit.NewSolicitMountedStream(ms)
 			var wg vsync.WaitGroup
@@ -206,6 +216,8 @@ func TestC31(t *testing.T) {
 		name := "accept-close/" + strings.Join(parts, "|")
 		res := vsync.Explore(t, scenario(name, sc, bound, run))
 		agg.Add(res, func(v *vsync.Violation) string { return "accept-close-race" })
+		res = vsync.Explore(t, scenarioEx(name+"/stream-close-reports-an-error", sc, bound, run, true))
+		agg.Add(res, func(v *vsync.Violation) string { return "accept-close-race/stream-close-reports-an-error" })
 	}
 	agg.Finish(true)
 	maxK := 3
